@@ -1,8 +1,9 @@
 (* The formula table of Theory and the per-step data of the body formulas are keyed by the representation string (_rep) of a formula: two formulas
    with one representation are one entry.  The representation of every class is REGENERATED from its __init__ (Gen/FromReps.v) as a list of tokens - a
-   literal piece of the format string, a number, a name, an argument list are ONE token each (what this abstracts from: that the characters of two
-   different token lists differ too - names and arguments print injectively, pieces do not run into one another).  Theorem: on the formulas of the
-   model (all operators of &tel bodies, &del with its path expressions) the representation is injective - no two different formulas share an entry. *)
+   number, a name, an argument list are ONE token each; the literal pieces of the format strings are taken CHARACTER BY CHARACTER (`flat`), so that pieces
+   that run into one another - "(<*" against "(" followed by "<*" - are seen as what they are (what is still abstracted from: names and arguments print
+   injectively and contain none of the operator characters at their ends).  Theorem: on the formulas of the model (all operators of &tel bodies, &del
+   with its path expressions) the flattened representation is injective - no two different formulas share an entry. *)
 From Coq Require Import List Bool Arith String Ascii Lia.
 Require Import GenPrelude TheoryPrelude FromReps LDL.
 Require BodyTheoryFull.
@@ -41,16 +42,12 @@ Fixpoint rep (f : bf) : list rtok :=
   | F.Dia _ p g => rep_diamond_gen (prep p) (rep g)
   | F.Box _ p g => rep_box_gen (prep p) (rep g)
   end.
-(* every representation begins with a literal piece that begins with an opening parenthesis *)
-Definition opens (s : string) : bool := match s with String c _ => Ascii.eqb c "("%char | EmptyString => false end.
+(* the characters of the literal pieces *)
+Definition flat1 (t : rtok) : list rtok := match t with RL s => map RC (list_ascii_of_string s) | t => [t] end.
+Definition flat (l : list rtok) : list rtok := flat_map flat1 l.
+Lemma flat_app a b : flat (a ++ b) = flat a ++ flat b.  Proof. apply flat_map_app. Qed.
 Ltac unfold_reps := unfold rep_atom_gen, rep_constant_gen, rep_negation_gen, rep_boolean_gen, rep_previous_gen, rep_initially_gen, rep_next_gen, rep_telp_gen, rep_teln_gen,
   rep_diamond_gen, rep_box_gen, rep_skip_gen, rep_choice_gen, rep_sequence_gen, rep_check_gen, rep_star_gen in *.
-Lemma rep_head f : exists s t, rep f = RL s :: t /\ opens s = true.
-Proof. destruct f as [[[p n] a]|b|x|op x y|n w x|x|n w x|u l r|u r|u l r|u r|p g|p g]; cbn [rep]; unfold_reps; try destruct b; cbn [app]; eauto. Qed.
-Lemma prep_head p : exists s t, prep p = RL s :: t /\ opens s = true.
-Proof. destruct p as [|t|l r|l r|q]; cbn [prep]; unfold_reps; cbn [app]; eauto. Qed.
-Lemma leaf_head t : exists s r, rep_leaf t = RL s :: r /\ opens s = true.
-Proof. destruct t as [[[p n] a]|b]; cbn [rep_leaf]; unfold_reps; try destruct b; cbn [app]; eauto. Qed.
 Lemma rep_leaf_is_rep t : rep_leaf t = rep (F.tbf atom t).
 Proof. destruct t as [[[p n] a]|b]; reflexivity. Qed.
 (* formulas and paths together: an item *)
@@ -65,8 +62,12 @@ Fixpoint fsize (f : bf) : nat :=
   | F.Dia _ p g | F.Box _ p g => S (psize p + fsize g)
   end.
 Definition isize (x : item) : nat := match x with IF f => fsize f | IP p => psize p end.
-Lemma irep_head x : exists s t, irep x = RL s :: t /\ opens s = true.
-Proof. destruct x; [apply rep_head|apply prep_head]. Qed.
+Definition cirep (x : item) : list rtok := flat (irep x).
+Lemma cirep_head x : exists t, cirep x = RC "("%char :: t.
+Proof.
+  unfold cirep. destruct x as [f|p]; [destruct f as [[[p n] a]|b|x|op x y|n w x|x|n w x|u l r|u r|u l r|u r|p g|p g]|destruct p as [|t|l r|l r|q]];
+    cbn [irep rep prep]; try rewrite rep_leaf_is_rep; unfold_reps; try destruct b; repeat rewrite flat_app; cbn; eauto.
+Qed.
 Lemma bool_str_inj a b : bool_str a = bool_str b -> a = b.  Proof. destruct a, b; cbn; intros E; try reflexivity; discriminate. Qed.
 Lemma tel_str_inj a b : tel_str a = tel_str b -> a = b.  Proof. destruct a, b; cbn; intros E; try reflexivity; discriminate. Qed.
 Lemma nop_inj u v : F.nop u = F.nop v -> u = v.  Proof. destruct u, v; cbn; intros E; try reflexivity; discriminate. Qed.
@@ -77,67 +78,69 @@ Lemma fsize_tbf t : fsize (F.tbf atom t) = 1.  Proof. destruct t; reflexivity. Q
 Ltac norm := repeat rewrite <- app_assoc in *; cbn [app] in *.
 Ltac head_vs_token H :=
   match type of H with
-  | irep ?a ++ _ = _ :: _ => let s := fresh "s" in let t := fresh "t" in let E := fresh "E" in let O := fresh "O" in
-      destruct (irep_head a) as [s [t [E O]]]; rewrite E in H; cbn [app] in H; first [discriminate H | injection H; intros; subst; cbn in O; discriminate O]
-  | _ :: _ = irep ?a ++ _ => let s := fresh "s" in let t := fresh "t" in let E := fresh "E" in let O := fresh "O" in
-      destruct (irep_head a) as [s [t [E O]]]; rewrite E in H; cbn [app] in H; first [discriminate H | injection H; intros; subst; cbn in O; discriminate O]
+  | cirep ?a ++ _ = _ :: _ => let t := fresh "t" in let E := fresh "E" in
+      destruct (cirep_head a) as [t E]; rewrite E in H; cbn [app] in H; first [discriminate H | injection H; intros; discriminate]
+  | _ :: _ = cirep ?a ++ _ => let t := fresh "t" in let E := fresh "E" in
+      destruct (cirep_head a) as [t E]; rewrite E in H; cbn [app] in H; first [discriminate H | injection H; intros; discriminate]
   end.
 Ltac compare_all Sub RF RP :=
   repeat (norm; repeat rewrite RF in *; repeat rewrite RP in *; match goal with
-  | E : irep ?a ++ _ = irep ?b ++ _ |- _ => apply Sub in E; [destruct E as [? ?] | cbn [isize fsize psize] in *; rewrite ?fsize_tbf; lia]
-  | E : irep _ ++ _ = _ :: _ |- _ => exfalso; head_vs_token E
-  | E : _ :: _ = irep _ ++ _ |- _ => exfalso; head_vs_token E
+  | E : cirep ?a ++ _ = cirep ?b ++ _ |- _ => apply Sub in E; [destruct E as [? ?] | cbn [isize fsize psize] in *; rewrite ?fsize_tbf; lia]
+  | E : cirep _ ++ _ = _ :: _ |- _ => exfalso; head_vs_token E
+  | E : _ :: _ = cirep _ ++ _ |- _ => exfalso; head_vs_token E
   | E : _ :: _ = _ :: _ |- _ => first [discriminate E | injection E; clear E; intros]
   | E : IF _ = IP _ |- _ => discriminate E
   | E : IP _ = IF _ |- _ => discriminate E
   | E : IF _ = IF _ |- _ => injection E; clear E; intros
   | E : IP _ = IP _ |- _ => injection E; clear E; intros
   | E : F.tbf _ _ = F.tbf _ _ |- _ => apply tbf_inj in E
+  | E : RC _ = RC _ |- _ => first [discriminate E | clear E]
   | E : RL _ = RL _ |- _ => first [discriminate E | clear E]
   | E : RN _ = RN _ |- _ => injection E; clear E; intros
   | E : RName _ = RName _ |- _ => injection E; clear E; intros
   | E : RArgs _ = RArgs _ |- _ => injection E; clear E; intros
   end).
 Ltac small_cases := repeat match goal with b : bool |- _ => destruct b | o : boolop |- _ => destruct o end.
-Theorem irep_injective : forall n x, isize x <= n -> forall y s s', irep x ++ s = irep y ++ s' -> x = y /\ s = s'.
+Ltac flatten E := repeat rewrite flat_app in E; cbn [flat flat_map flat1 list_ascii_of_string map app] in E.
+Theorem irep_injective : forall n x, isize x <= n -> forall y s s', cirep x ++ s = cirep y ++ s' -> x = y /\ s = s'.
 Proof.
   induction n as [|n IH]; intros x Sx y s s' E.
   - destruct x as [f|p]; [destruct f|destruct p]; cbn in Sx; lia.
-  - assert (forall a b r r', isize a <= n -> irep a ++ r = irep b ++ r' -> a = b /\ r = r') as Sub by (intros a b r r' Sa; now apply IH).
-    assert (forall (f : bf), rep f = irep (IF f)) as RF by reflexivity.
-    assert (forall (p : path), prep p = irep (IP p)) as RP by reflexivity.
-    clear IH.
+  - assert (forall a b r r', isize a <= n -> cirep a ++ r = cirep b ++ r' -> a = b /\ r = r') as Sub by (intros a b r r' Sa; now apply IH).
+    assert (forall (f : bf), flat_map flat1 (rep f) = cirep (IF f)) as RF by reflexivity.
+    assert (forall (p : path), flat_map flat1 (prep p) = cirep (IP p)) as RP by reflexivity.
+    clear IH. unfold cirep in E.
     destruct x as [f|p].
     + destruct f as [[[p1 n1] a1]|b1|x1|op1 x1 y1|m1 w1 x1|x1|m1 w1 x1|u1 l1 r1|u1 r1|u1 l1 r1|u1 r1|p1 g1|p1 g1];
       (destruct y as [g|q]; [destruct g as [[[p2 n2] a2]|b2|x2|op2 x2 y2|m2 w2 x2|x2|m2 w2 x2|u2 l2 r2|u2 r2|u2 l2 r2|u2 r2|p2 g2|p2 g2] | destruct q as [|t2|l2 r2|l2 r2|q2]]);
       cbn [irep rep prep isize fsize psize] in E, Sx; try rewrite !rep_leaf_is_rep in E; unfold_reps; small_cases; cbn [bool_str tel_str F.nop F.pop] in E;
-      repeat rewrite RF in E; repeat rewrite RP in E; norm; try discriminate E;
+      flatten E; norm; try discriminate E;
       compare_all Sub RF RP; subst; split; reflexivity.
     + destruct p as [|t1|l1 r1|l1 r1|q1];
       (destruct y as [g|q]; [destruct g as [[[p2 n2] a2]|b2|x2|op2 x2 y2|m2 w2 x2|x2|m2 w2 x2|u2 l2 r2|u2 r2|u2 l2 r2|u2 r2|p2 g2|p2 g2] | destruct q as [|t2|l2 r2|l2 r2|q2]]);
       cbn [irep rep prep isize fsize psize] in E, Sx; try rewrite !rep_leaf_is_rep in E; unfold_reps; small_cases; cbn [bool_str tel_str F.nop F.pop] in E;
-      repeat rewrite RF in E; repeat rewrite RP in E; norm; try discriminate E;
+      flatten E; norm; try discriminate E;
       compare_all Sub RF RP; subst; split; reflexivity.
 Qed.
-Theorem rep_injective (f g : bf) : rep f = rep g -> f = g.
+Theorem rep_injective (f g : bf) : flat (rep f) = flat (rep g) -> f = g.
 Proof.
-  intros E. assert (irep (IF f) ++ [] = irep (IF g) ++ []) as E' by (cbn [irep]; now rewrite !app_nil_r).
+  intros E. assert (cirep (IF f) ++ [] = cirep (IF g) ++ []) as E' by (unfold cirep; cbn [irep]; now rewrite !app_nil_r).
   destruct (irep_injective (isize (IF f)) (IF f) (le_n _) (IF g) [] [] E') as [H _]. now injection H.
 Qed.
-Theorem prep_injective (p q : path) : prep p = prep q -> p = q.
+Theorem prep_injective (p q : path) : flat (prep p) = flat (prep q) -> p = q.
 Proof.
-  intros E. assert (irep (IP p) ++ [] = irep (IP q) ++ []) as E' by (cbn [irep]; now rewrite !app_nil_r).
+  intros E. assert (cirep (IP p) ++ [] = cirep (IP q) ++ []) as E' by (unfold cirep; cbn [irep]; now rewrite !app_nil_r).
   destruct (irep_injective (isize (IP p)) (IP p) (le_n _) (IP q) [] [] E') as [H _]. now injection H.
 Qed.
 (* a formula is never mistaken for a path expression either *)
-Theorem rep_is_not_a_path (f : bf) (p : path) : rep f <> prep p.
+Theorem rep_is_not_a_path (f : bf) (p : path) : flat (rep f) <> flat (prep p).
 Proof.
-  intros E. assert (irep (IF f) ++ [] = irep (IP p) ++ []) as E' by (cbn [irep]; now rewrite !app_nil_r).
+  intros E. assert (cirep (IF f) ++ [] = cirep (IP p) ++ []) as E' by (unfold cirep; cbn [irep]; now rewrite !app_nil_r).
   destruct (irep_injective (isize (IF f)) (IF f) (le_n _) (IP p) [] [] E') as [H _]. discriminate H.
 Qed.
 (* the keys of the tables: (step, representation) *)
-Corollary table_key_injective (k k' : nat) (f g : bf) : (k, rep f) = (k', rep g) -> k = k' /\ f = g.
+Corollary table_key_injective (k k' : nat) (f g : bf) : (k, flat (rep f)) = (k', flat (rep g)) -> k = k' /\ f = g.
 Proof. intros E. injection E as -> E. split; [reflexivity|now apply rep_injective]. Qed.
-Example weak_and_strong_differ : rep (F.Pv atom 1 true (F.At atom (true, 0, 0))) <> rep (F.Pv atom 1 false (F.At atom (true, 0, 0))) /\
-  rep (F.At atom (true, 0, 0)) <> rep (F.At atom (false, 0, 0)) /\ prep (Choice atom (Skip atom) (Skip atom)) <> prep (Seq atom (Skip atom) (Skip atom)).
+Example weak_and_strong_differ : flat (rep (F.Pv atom 1 true (F.At atom (true, 0, 0)))) <> flat (rep (F.Pv atom 1 false (F.At atom (true, 0, 0)))) /\
+  flat (rep (F.At atom (true, 0, 0))) <> flat (rep (F.At atom (false, 0, 0))) /\ flat (prep (Choice atom (Skip atom) (Skip atom))) <> flat (prep (Seq atom (Skip atom) (Skip atom))).
 Proof. repeat split; intros E; discriminate E. Qed.
